@@ -16,6 +16,13 @@ Generators whose file name contains the namespace (cpp, cppcli, java): for *all*
 Generators that drop the namespace (jni, objcpp, yaml) and the conversion collisions: `decide`-proved counterexamples
 * `jni_namespace_dropped`, `objcpp_namespace_dropped`, `yaml_namespace_dropped`, `pascal_conversion_collides`,
   `base_suffix_collides`, `objc_concatenation_collides`, `anonymous_function_namespace_dropped`
+The synthetic name of an inline function type (`Gen/Collide.lean: anonName` = `Parser.visitFunction`)
+* `splitU_joinL`, `joinL_flat_injective`   `'_'.join` is injective on non-empty lists of parts without `_`
+* `anonName_encodes_throws`, `anonName_throws_injective`, `anonName_bare_throws_distinct`
+      inline function types that agree in front of the `throws` clause and have one name have the same clause: "cannot throw",
+      bare `throws` and `throws e…` are told apart by the name (for all signatures; error domain names without `_`)
+* `anonName_ignores_parameter_names`, `anonName_ignores_optional` (for all signatures), `anonName_optional_dropped`,
+  `anonName_join_ambiguous`, `anonName_nested_function_dropped`: what the name leaves out — the Dom clauses (findings)
 The write itself
 * `write_unconditional` (`no_refusal`): `FileReaderWriter` never refuses or diagnoses a second write to a path
 * `no_collisions_nodup`     if the model predicts no collision for a run, its per-declaration files are pairwise distinct paths
@@ -246,6 +253,189 @@ theorem anonymous_function_namespace_dropped :
 
 /-- hypotheses of `relName_injective` / `cpp_default_injective` are satisfiable -/
 example : relHeader .cpp dflt recA ≠ relHeader .cpp dflt recB := by decide +kernel
+
+/-! ### the synthetic name of an inline function type -/
+
+def flatL (t : List Char) : Prop := '_' ∉ t
+
+theorem splitU_flat (t : List Char) (h : flatL t) : splitU t = [t] := by
+  induction t with
+  | nil => rfl
+  | cons c cs ih =>
+    have hc : c ≠ '_' := fun e => h (by simp [e])
+    have hcs : flatL cs := fun m => h (by simp [m])
+    conv => lhs; unfold splitU
+    simp [hc, ih hcs]
+
+theorem splitU_flat_append (t r : List Char) (h : flatL t) : splitU (t ++ '_' :: r) = t :: splitU r := by
+  induction t with
+  | nil => simp [splitU]
+  | cons c cs ih =>
+    have hc : c ≠ '_' := fun e => h (by simp [e])
+    have hcs : flatL cs := fun m => h (by simp [m])
+    simp only [List.cons_append]
+    conv => lhs; unfold splitU
+    simp [hc, ih hcs]
+
+/-- `'_'.join(ts).split('_') = ts` for a non-empty list of parts without `_` -/
+theorem splitU_joinL (ts : List (List Char)) (hne : ts ≠ []) (h : ∀ t ∈ ts, flatL t) : splitU (joinL ['_'] ts) = ts := by
+  induction ts with
+  | nil => exact absurd rfl hne
+  | cons t rest ih =>
+    cases rest with
+    | nil => simpa [joinL] using splitU_flat t (h t (by simp))
+    | cons u us =>
+      rw [joinL_cons_cons]
+      have := ih (by simp) (fun x hx => h x (by simp [hx]))
+      simp only [List.append_assoc, List.singleton_append]
+      rw [splitU_flat_append t _ (h t (by simp)), this]
+
+theorem joinL_flat_injective (ts us : List (List Char)) (hts : ts ≠ []) (hus : us ≠ [])
+    (ht : ∀ t ∈ ts, flatL t) (hu : ∀ t ∈ us, flatL t) (h : joinL ['_'] ts = joinL ['_'] us) : ts = us := by
+  rw [← splitU_joinL ts hts ht, ← splitU_joinL us hus hu, h]
+
+/-- the text that a list of further parts adds behind a non-empty list of parts -/
+def joinTail (link : List Char) : List (List Char) → List Char
+  | [] => []
+  | t :: ts => link ++ joinL link (t :: ts)
+
+theorem joinL_append (link : List Char) (p t : List (List Char)) (hp : p ≠ []) :
+    joinL link (p ++ t) = joinL link p ++ joinTail link t := by
+  induction p with
+  | nil => exact absurd rfl hp
+  | cons x xs ih =>
+    cases xs with
+    | nil =>
+      cases t with
+      | nil => simp [joinL, joinTail]
+      | cons u us => simp [joinL_cons_cons, joinTail, joinL]
+    | cons y ys =>
+      have := ih (by simp)
+      simp only [List.cons_append] at this ⊢
+      rw [joinL_cons_cons, this, joinL_cons_cons]
+      simp
+
+theorem headParts_ne_nil (keys : List String) (s : Sig) : headParts keys s ≠ [] := by simp [headParts]
+
+theorem anonNameL_eq (keys : List String) (s : Sig) :
+    anonNameL keys s = joinL ['_'] (headParts keys s) ++ joinTail ['_'] (throwsParts s.throws) := by
+  unfold anonNameL anonParts
+  exact joinL_append _ _ _ (headParts_ne_nil keys s)
+
+def flatErrors (t : Option (List String)) : Prop := ∀ e ∈ t.getD [], flatL e.toList
+
+theorem throws_flat : flatL wThrows := by unfold flatL; decide
+
+/-- **The name encodes the `throws` clause**: two inline function types that agree in everything in front of it (targets,
+    parameter types, return type) and have the same name have the same clause — none, bare, or the same error domains
+    (error domain names without `_`: the separator is an identifier character, `anonName_join_ambiguous`). -/
+theorem anonName_encodes_throws (keys : List String) (a b : Sig) (hhead : headParts keys a = headParts keys b)
+    (ha : flatErrors a.throws) (hb : flatErrors b.throws) (h : anonName keys a = anonName keys b) : a.throws = b.throws := by
+  have hl : anonNameL keys a = anonNameL keys b := String.ofList_injective h
+  rw [anonNameL_eq, anonNameL_eq, hhead] at hl
+  have ht := List.append_cancel_left hl
+  cases hta : a.throws with
+  | none =>
+    cases htb : b.throws with
+    | none => rfl
+    | some es => simp [hta, htb, throwsParts, joinTail] at ht
+  | some es₁ =>
+    cases htb : b.throws with
+    | none => simp [hta, htb, throwsParts, joinTail] at ht
+    | some es₂ =>
+      simp only [hta, htb, throwsParts, joinTail] at ht
+      have ht' := List.append_cancel_left ht
+      have f1 : ∀ t ∈ wThrows :: es₁.map (·.toList), flatL t := by
+        intro t m
+        rcases List.mem_cons.mp m with rfl | m
+        · exact throws_flat
+        · obtain ⟨e, he, rfl⟩ := List.mem_map.mp m
+          exact ha e (by simp [hta, he])
+      have f2 : ∀ t ∈ wThrows :: es₂.map (·.toList), flatL t := by
+        intro t m
+        rcases List.mem_cons.mp m with rfl | m
+        · exact throws_flat
+        · obtain ⟨e, he, rfl⟩ := List.mem_map.mp m
+          exact hb e (by simp [htb, he])
+      have := joinL_flat_injective _ _ (by simp) (by simp) f1 f2 ht'
+      simp only [List.cons.injEq, true_and] at this
+      rw [List.map_inj_right (fun x y => fun hxy => String.toList_inj.mp hxy)] at this
+      rw [this]
+
+/-- a function that cannot throw, one that may throw anything (bare `throws`) and one that throws listed error domains are
+    three different types with three different names, whatever the rest of the signature is -/
+theorem anonName_throws_injective (keys : List String) (s : Sig) (t₁ t₂ : Option (List String))
+    (h₁ : flatErrors t₁) (h₂ : flatErrors t₂)
+    (h : anonName keys { s with throws := t₁ } = anonName keys { s with throws := t₂ }) : t₁ = t₂ :=
+  anonName_encodes_throws keys { s with throws := t₁ } { s with throws := t₂ } rfl h₁ h₂ h
+
+theorem anonName_bare_throws_distinct (keys : List String) (s : Sig) :
+    anonName keys { s with throws := some [] } ≠ anonName keys { s with throws := none } := by
+  intro h
+  have := anonName_throws_injective keys s (some []) none (by simp [flatErrors]) (by simp [flatErrors]) h
+  simp at this
+
+/-! what the name of the pinned tree leaves out (each is the witness of a known finding `overwrite:anonymous:…` /
+    `overwrite:duplicate-declaration`) -/
+
+/-- parameter names are no part of the name (finding `overwrite:duplicate-declaration`, parameter names) -/
+theorem headParts_params (keys : List String) (s : Sig) (ps : List (String × TExp)) (r : Option TExp)
+    (h : ps.map (fun p => sigT 2 p.2) = s.params.map (fun p => sigT 2 p.2))
+    (hr : retPart r = retPart s.ret) :
+    headParts keys { s with params := ps, ret := r } = headParts keys s := by
+  simp only [headParts, effTargets]
+  rw [h, hr]
+
+theorem anonName_ignores_parameter_names (keys : List String) (s : Sig) (f : String → String) :
+    anonName keys { s with params := s.params.map (fun p => (f p.1, p.2)) } = anonName keys s := by
+  simp only [anonName, anonNameL, anonParts]
+  rw [headParts_params keys s _ s.ret (by simp only [List.map_map, Function.comp_def]) rfl]
+
+/-- the `?` of a type -/
+def setOptional (o : Bool) : TExp → TExp
+  | .ref n _ args => .ref n o args
+  | .fn s => .fn s
+
+theorem sigT_setOptional (d : Nat) (o : Bool) (t : TExp) : sigT d (setOptional o t) = sigT d t := by
+  cases t with
+  | ref n o' args => simp only [setOptional, sigT]
+  | fn s => simp only [setOptional]
+
+/-- `?` on a parameter or on the returned type is no part of the name (finding `overwrite:anonymous:optional-dropped`) -/
+theorem anonName_ignores_optional (keys : List String) (s : Sig) (o : Bool) :
+    anonName keys { s with params := s.params.map (fun p => (p.1, setOptional o p.2)), ret := s.ret.map (setOptional o) } = anonName keys s := by
+  simp only [anonName, anonNameL, anonParts]
+  rw [headParts_params keys s _ _ (by simp only [List.map_map, Function.comp_def, sigT_setOptional])
+    (by cases s.ret <;> simp only [Option.map, retPart, sigT_setOptional])]
+
+def keys5 : List String := ["cpp", "cppcli", "java", "objc", "yaml"]
+def tI32 : TExp := .ref "i32" false []
+
+/-- `(x: i32?) -> bool` and `(x: i32) -> bool` are different types with one name -/
+theorem anonName_optional_dropped :
+    anonName keys5 { params := [("x", .ref "i32" true [])], ret := some (.ref "bool" false []) }
+      = anonName keys5 { params := [("x", tI32)], ret := some (.ref "bool" false []) } := by decide +kernel
+
+/-- the separator is an identifier character: `(x: foo, y: bar)` / `(x: foo_bar)`; a type called `void`; a type called like a target
+    (finding `overwrite:anonymous:join-ambiguity`) -/
+theorem anonName_join_ambiguous :
+    anonName keys5 { params := [("x", .ref "foo" false []), ("y", .ref "bar" false [])] } = anonName keys5 { params := [("x", .ref "foo_bar" false [])] }
+    ∧ anonName keys5 { params := [("x", tI32)], ret := some (.ref "void" false []) } = anonName keys5 { params := [("x", tI32)] }
+    ∧ anonName keys5 { targets := ["cpp"], params := [("x", .ref "java" false [])] } = anonName keys5 { targets := ["cpp", "java"] }
+    ∧ anonName keys5 { params := [("x", tI32)], throws := some ["a_b"] } = anonName keys5 { params := [("x", tI32)], throws := some ["a", "b"] } := by
+  decide +kernel
+
+/-- a function-typed parameter is spelled `<function>` whatever its signature (finding `overwrite:anonymous:nested-function`) -/
+theorem anonName_nested_function_dropped :
+    anonName keys5 { params := [("f", .fn "(x: i32)")] } = anonName keys5 { params := [("f", .fn "(x: string)")] } := by decide +kernel
+
+/-- hypotheses of `anonName_encodes_throws` are satisfiable, and the three clauses give three names -/
+example : anonName keys5 { params := [("x", tI32)], throws := none } = "function_cpp_cppcli_java_objc_yaml_i32_void"
+    ∧ anonName keys5 { params := [("x", tI32)], throws := some [] } = "function_cpp_cppcli_java_objc_yaml_i32_void_throws"
+    ∧ anonName keys5 { params := [("x", tI32)], throws := some ["e1", "e2"] } = "function_cpp_cppcli_java_objc_yaml_i32_void_throws_e1_e2"
+    ∧ anonName keys5 { targets := ["cpp"], params := [("m", .ref "map" false [tI32, .ref "list" false [tI32]])], ret := some tI32 }
+        = "function_cpp_map__i32__list___i32_i32" := by decide +kernel
+example : flatErrors (some ["e1", "e2"]) := by simp [flatErrors, flatL]
 
 /-! ### the write log -/
 
